@@ -128,7 +128,48 @@ def subRetry {E D M : Type} (dst : M → Nat) (blockOf : E → Outcome (List D))
     (evs : List E) : Option (DMap M) :=
   if evs.any abort then none else some (evs.foldl (perEvent dst blockOf h) DMap.empty)
 
+/-! ### the push step of every `HandleEvents`: `for _, deposits := range domainDeposits { msgChan <- deposits }`
+    (EVM/Substrate/Bitcoin deposit handlers: one goroutine per entry; the retry handlers: synchronously) -/
+
+/-- the batches put on the message channel: one per map entry. An entry exists iff something was appended under its key
+    (destinations are `uint8`); the order of the sends is unspecified (map iteration / goroutines) — listed by key here. -/
+def batches {M : Type} (m : DMap M) : List (List M) :=
+  (List.range 256).filterMap fun k => if (m k).isEmpty then none else some (m k)
+
+/-- EVM / Substrate / Bitcoin deposit `HandleEvents`: `ProcessDeposits`, then the push step -/
+def handleEvents {D M : Type} (dst : M → Nat) (h : D → Outcome M) (ds : List D) : List (List M) :=
+  batches (processDeposits dst h ds)
+
+/-- EVM `RetryV2EventHandler.HandleEvents`: every decodable retry event is sent as its own single-message batch
+    (`parse` = `FetchRetryV2Events`' unpacking: undecodable logs are logged and skipped) -/
+def retryV2 {L M : Type} (parse : L → Option M) (logs : List L) : List (List M) :=
+  (logs.filterMap parse).map fun m => [m]
+
 /-! ## the property -/
+
+/-- destination of a batch as the consumer (`relayer.route`) reads it: `msgs[0].Destination` -/
+def headDst {M : Type} (dst : M → Nat) (b : List M) : Option Nat := b.head?.map dst
+
+/-- P06h, at the message channel: no empty batch is ever sent, and for every destination the batches addressed to it are
+    exactly one batch holding the messages of the deposits that succeed on their own, in order — or none at all when
+    there is no such deposit -/
+def P06h {M : Type} [DecidableEq M] (dst : M → Nat) (good : List M) (sends : List (List M)) : Prop :=
+  (∀ b ∈ sends, b ≠ []) ∧
+  (∀ b ∈ sends, ∃ k, k < 256 ∧ headDst dst b = some k) ∧
+  ∀ k, k < 256 → sends.filter (fun b => headDst dst b = some k) =
+    (if (good.filter (fun m => dst m = k)).isEmpty then [] else [good.filter (fun m => dst m = k)])
+
+instance {M : Type} [DecidableEq M] (dst : M → Nat) (good : List M) (sends : List (List M)) : Decidable (P06h dst good sends) := by
+  unfold P06h
+  have : ∀ b : List M, Decidable (∃ k, k < 256 ∧ headDst dst b = some k) := fun b =>
+    match h : headDst dst b with
+    | none => isFalse (by rintro ⟨k, _, hk⟩; cases hk)
+    | some j => if hj : j < 256 then isTrue ⟨j, hj, rfl⟩ else isFalse (by rintro ⟨k, hk, e⟩; cases e; exact hj hk)
+  have : Decidable (∀ k, k < 256 → sends.filter (fun b => headDst dst b = some k) =
+    (if (good.filter (fun m => dst m = k)).isEmpty then [] else [good.filter (fun m => dst m = k)])) :=
+    Nat.decidableBallLT 256 _
+  infer_instance
+
 
 /-- P06: for every destination the emitted list is exactly the messages of the deposits that are well-formed on their
     own, in order — whatever the other deposits of the range are.  (`good` = those messages.) -/
